@@ -23,6 +23,8 @@ CLAIMED = {
  "C29": ("exploration", "histories of 1-4 SMGen calls over its process-global state; scattered_map_core.random scripted; virtual clock advanced per traced line; the fake threading.Timer fires clock-driven or pinned to an instant after arming and its handler is delivered in a helper thread (production) or in the main thread; user abort injected at a traced line; every returned sequence checked against the reference semantics", "virtual clock + timer/pre-emption scheduler (sys.settrace line events) + reference-model oracle", "6 C29"),
  "C18": ("exploration", "histories of constructor calls over one pool of shared factor/constraint Python objects (CrossBlock of different geometry, Repeat, Merge, Nest, in seeded order) interleaved with exhaust and mismatch queries; reference = the same expression built alone from fresh objects", "history over shared mutable objects + fresh-twin reference", "6 C18"),
  "C22": ("exploration", "designs with continuous factors; every continuous draw goes through the scripted PRNG and the script decides which whole-sequence attempt satisfies the ContinuousConstraint; returned values re-derived from the returned rows (same-trial inputs, ContinuousFactorWindow with NaN rules, cumulative sums per sequence); exact attempt count as bounded liveness", "scripted PRNG ('bad luck' fault placement) + recomputation oracle", "6 C22"),
+ "C15": ("exploration", "derived-level tables generated as data (total, deliberately overlapping or non-covering on a reachable window, ElseLevel, early start, stride); overlapping => constructor raises, non-covering => every strategy returns [], otherwise every returned sequence carries exactly the level its window selects and '' where the factor does not apply; IterateSATGen under every peer policy, RandomGen under scripted draws, CMSGen", "reference-model oracle (R-DER) over peer/RNG schedules; the design generator carries most of the weight", "6 C15"),
+ "C16": ("exploration", "block.trials_per_sample() against the documented arithmetic (reference R-T) and the length of every factor's column in every sequence from IterateSATGen, RandomGen, CMSGen, UniGen and SMGen (virtual-clock world)", "reference-model oracle (R-T) over all strategies; the design generator carries most of the weight", "6 C16"),
 }
 
 NA = {
